@@ -12,4 +12,5 @@ run c08_extra_commit C08 C07 C18
 run c06_backoff_microsecond_granularity C06
 run c04_extra_schedule_event C04 C12 C13
 run c10_reports_apps_in_reverse_order C10 C02
+run c18_finish_time_committed_after_reboot_question C18
 ./selftest/mutant.sh --clean
